@@ -7,6 +7,7 @@ from session import Inconclusive
 
 SIZES = [(1, 1), (1, 80), (24, 1), (2, 2), (3, 5), (10, 20), (24, 80), (50, 150), (100, 300), (4, 49), (5, 60)]
 KEYNAMES = [k for k in procs.KEYS if k not in ("q", "CtrlC")]
+GPSD_IP = "127.0.0.1"
 
 
 def aircraft_lines(rng, n, lat, lon, spread_km=150):
@@ -127,7 +128,7 @@ def run_session(col, binpath, rng, tag, scratch, n_events):
         if rng.random() < 0.5:
             opts += ["--airports-tz-filter", rng.choice(["America/Chicago", "Europe/Amsterdam,America/Chicago", "Nowhere"])]
     if rng.random() < 0.3:
-        opts += ["--gpsd", "--gpsd-ip", "127.0.0.1"]  # served by the stand-in gpsd of this run (or nothing listens: the helper thread must fail quietly)
+        opts += ["--gpsd", "--gpsd-ip", GPSD_IP]  # served by the stand-in gpsd of this run (or nothing listens: the helper thread must fail quietly)
     rows, cols = rng.choice(SIZES[5:])
     lines = aircraft_lines(rng, n_air, lat, lon)
     # "any traffic": the feed also carries lines that are not frames (C16's malformed kinds)
@@ -241,15 +242,18 @@ def quit_on_reconnect_screen(col, binpath, rng, tag, scratch):
     how = rng.choice(["q", "CtrlC"])
     lat, lon = 52.0, 4.0
     lines = aircraft_lines(rng, rng.choice([0, 2, 5]), lat, lon)
-    plan = ([("send", b"".join(lines))] if lines else []) + [("sleep", 1.0), ("close",), ("mark", "closed"), ("sleep", 120)]
+    # the server either goes away for good, or keeps accepting and dropping every connection at once
+    flapping = tag.rsplit("#", 1)[-1].isdigit() and int(tag.rsplit("#", 1)[-1]) % 2 == 1
+    plan = ([("send", b"".join(lines))] if lines else []) + [("sleep", 1.0), ("close",), ("mark", "closed")] + ([("flap", 60.0)] if flapping else [("sleep", 120)])
     sess = session.RadarSession(binpath, plan, lat=lat, lon=lon, opts=["--retry-tcp"] + rng.choice([[], ["--touchscreen"]]), rows=30, cols=100, scratch=scratch)
-    inp = {"scenario": "quit while waiting for a reconnect (--retry-tcp, server gone)", "quit": how, "tag": tag}
+    inp = {"scenario": "quit while waiting for a reconnect (--retry-tcp, " + ("server accepts and drops every connection" if flapping else "server gone") + ")", "quit": how, "tag": tag}
     try:
         sess.wait_connected()
         end = time.monotonic() + 30
         while time.monotonic() < end and not sess.srv.marked("closed"):
             sess.p.pump(0.1)
-        sess.srv.sock.close()  # nothing listens any more: every reconnect attempt is refused
+        if not flapping:
+            sess.srv.sock.close()  # nothing listens any more: every reconnect attempt is refused
         sess.p.pump(1.5)
         if not sess.p.alive():
             col.add("C17", f"C17|terminated_before_quit|reconnect_wait|{sess.panic_location()}", f"with --retry-tcp radar exited (status {sess.p.p.returncode}) when the server went away", inp)
@@ -389,7 +393,10 @@ def main(a, lcol, col, run_all, scratch, START):
             n_events = len(r.get("events", []))
             jobs = [(t, lambda rng: run_session(lcol, a.bin, rng, t, scratch, n_events))]
     # a gpsd stand-in for the sessions started with --gpsd (the others never connect to it)
-    gpsd = procs.FakeGpsd()
+    # (own loopback address per run - the port is fixed in radar, the address is an option)
+    global GPSD_IP
+    GPSD_IP = "127.%d.%d.%d" % (random.Random(f"{a.seed}/{os.getpid()}").randrange(2, 250), os.getpid() % 250, 1 + a.seed % 250)
+    gpsd = procs.FakeGpsd(ip=GPSD_IP)
     gpsd.start()
     try:
         run_all(jobs)
